@@ -399,7 +399,10 @@ Proof.
   assert (Ld : len data = N.of_nat rows * rbN).
   { unfold len, data. rewrite tiff_forward_length by assumption. subst rb. lia. }
   rewrite Ld. rewrite N.mod_mul by lia. change (0 =? 0) with true. cbn [negb].
-  rewrite N.div_mul by lia. rewrite Nat2N.id. fold rb.
+  rewrite N.div_mul by lia. cbv zeta.
+  destruct (N.eqb_spec (N.of_nat rows) 0) as [E0 | E0].
+  { assert (rows = 0%nat) by lia. subst rows. destruct x as [|x0 xs]; [reflexivity | cbn in Hl; lia]. }
+  rewrite Nat2N.id. fold rb.
   replace (columns * colors) with (N.of_nat n) by (subst n; lia).
   f_equal. apply tiff_rows_roundtrip; try assumption.
   intros E. subst n rb. unfold rbN, png_row_bytes.
